@@ -1155,7 +1155,7 @@ class TypeAnalyser(SyntheticTypeVisitor[Type], TypeAnalyzerPluginInterface):
                 'Bracketed expression "[...]" is not valid as a type', t, code=codes.VALID_TYPE
             )
             if len(t.items) == 1:
-                self.note('Did you mean "List[...]"?', t)
+                self.note('Did you mean "List[...]"?', t, code=codes.VALID_TYPE)
             return AnyType(TypeOfAny.from_error)
 
     def visit_callable_argument(self, t: CallableArgument) -> Type:
@@ -1674,6 +1674,7 @@ class TypeAnalyser(SyntheticTypeVisitor[Type], TypeAnalyzerPluginInterface):
                     self.note(
                         "See https://mypy.readthedocs.io/en/stable/kinds_of_types.html#callable-types-and-lambdas",
                         t,
+                        code=codes.VALID_TYPE,
                     )
                     return AnyType(TypeOfAny.from_error)
                 elif isinstance(maybe_ret, AnyType):
